@@ -9,11 +9,16 @@
     Status.Update (AddSnapshot on the extend path, UpdateCluster on the rollback path, then
     libState.gc(bps) and setConfirmsRequired(bps.Size())), NewStatus (newLibStatus(c.Size())).
 
-    The model is the code AFTER the proposed repairs
-      fixes/F23_dpos_rankers_bpcount_from_state.diff (GetRankers cuts the ranking at the BPCOUNT
-        stored in the same state, not at the node's in-memory value) and
-      fixes/F24_dpos_status_bp_count_after_snapshots.diff (NewStatus reads the BP count after the
-        snapshots installed the best block's BP set).
+    system.GetRankers cuts the ranking read from a block's state at the node's IN-MEMORY BPCOUNT
+    (system.GetBpCount), not at the BPCOUNT stored in that state (known finding
+    C08:bp-snapshot-bpcount-from-memory; fixes/NOT_APPLIED_dpos_rankers_bpcount_from_state.diff).
+    The first part of this file ([Section Election]) defines the election functions for a given
+    cut ([sto] gives the ranking and the count to cut at); the second part ([Section ElectionMem])
+    is the code as it is: every call is made with the cut [sto_mem mem] = (ranking of the state,
+    current in-memory BPCOUNT), and the in-memory value follows system.InitSystemParams (start-up,
+    end of a reorganisation: value stored in the best block's state) and system.CommitParams(true)
+    in Status.Update (after AddSnapshot: a change executed in the block becomes active).
+    NewStatus reads the BP count after the snapshots are loaded (repair F24, committed).
     A block's state root is abstracted by [sto]: block id -> (vote ranking, BPCOUNT).
     No proofs in this file. *)
 From Coq Require Import ZArith List Bool Lia.
@@ -192,6 +197,116 @@ Section Election.
     end.
 End Election.
 
+(** * The code as it is: ranking cut at the in-memory BPCOUNT *)
+Section ElectionMem.
+  Variable sto : Z -> list Z * Z.     (* block id -> (vote ranking, BPCOUNT stored in its state) *)
+  Variable gen : list Z.
+
+  Definition sto_mem (mem : Z) : Z -> list Z * Z := fun id => (fst (sto id), mem).
+  Definition param (id : Z) : Z := snd (sto id).
+
+  Record mstatus := mkMS { ms_es : estatus; ms_mem : Z }.
+
+  (* Status.Update: AddSnapshot/UpdateCluster with the current in-memory BPCOUNT, then
+     CommitParams(true) on the extend path *)
+  Definition mstatus_update (g : Z -> option block) (s : mstatus) (blk : block) : mstatus :=
+    let parent := st_best (es_st (ms_es s)) in
+    let extend := k_id parent =? k_prev blk in
+    let es' := estatus_update (sto_mem (ms_mem s)) gen g (ms_es s) blk in
+    mkMS es' (if extend && negb (param (k_id blk) =? param (k_id parent)) then param (k_id blk) else ms_mem s).
+
+  Record mnode := mkMN {
+    mn_self : Z;
+    mn_ms : mstatus;
+    mn_main : list block;
+    mn_store : list block;
+    mn_saved : option saved
+  }.
+
+  Definition minit_node (self : Z) : mnode :=
+    let en := einit_node gen self in
+    mkMN self (mkMS (en_est en) (param 0)) (en_main en) (en_store en) None.
+
+  Definition mdeliver (nd : mnode) (blk : block) : mnode * outcome :=
+    let st := es_st (ms_es (mn_ms nd)) in
+    let ls := st_ls st in
+    match find_block (mn_store nd) (k_id blk) with
+    | Some _ => (nd, ODup)
+    | None =>
+    if negb (verify_lib_rule ls blk) then (nd, OLeLib) else
+    match find_block (mn_store nd) (k_prev blk) with
+    | None => (nd, OOrphan)
+    | Some parent =>
+    if negb (k_no parent + 1 =? k_no blk) then (nd, OInvalid) else
+    let store' := blk :: mn_store nd in
+    let best := st_best st in
+    if k_prev blk =? k_id best then
+      let m' := mstatus_update (main_get (mn_main nd)) (mn_ms nd) blk in
+      (mkMN (mn_self nd) m' (mn_main nd ++ [blk]) store' (Some (save (st_ls (es_st (ms_es m'))))), OConnected)
+    else if k_no blk <=? k_no best then
+      (mkMN (mn_self nd) (mn_ms nd) (mn_main nd) store' (mn_saved nd), OSide)
+    else
+      match gather (length store') (mn_main nd) store' blk [] with
+      | None => (nd, OInvalid)
+      | Some (root, new_blocks) =>
+          if negb (need_reorganization ls (k_no root)) then
+            (mkMN (mn_self nd) (mn_ms nd) (mn_main nd) store' (mn_saved nd), OVeto)
+          else
+            let main_r := firstn (Z.to_nat (k_no root) + 1) (mn_main nd) in
+            let m1 := mstatus_update (main_get main_r) (mn_ms nd) root in
+            let m2 := fold_left (mstatus_update (main_get main_r)) new_blocks m1 in
+            (* chain.reorg ends with system.InitSystemParams(best state) *)
+            let m' := mkMS (ms_es m2) (param (k_id blk)) in
+            (mkMN (mn_self nd) m' (main_r ++ new_blocks) store' (Some (save (st_ls (es_st (ms_es m'))))), OReorg)
+      end
+    end end.
+
+  (* start-up: parameters from the best block's state, then NewCluster/NewStatus *)
+  Definition mrestart (nd : mnode) : mnode :=
+    let best := st_best (es_st (ms_es (mn_ms nd))) in
+    let mem := param (k_id best) in
+    mkMN (mn_self nd)
+         (mkMS (erestore (sto_mem mem) gen (main_get (mn_main nd)) (mn_saved nd) best (mn_self nd)) mem)
+         (mn_main nd) (mn_store nd) (mn_saved nd).
+
+  Definition mstep (nd : mnode) (e : event) : mnode :=
+    match e with EDeliver b => fst (mdeliver nd b) | ERestart => mrestart nd end.
+  Definition mrun (nd : mnode) (evs : list event) : mnode := fold_left mstep evs nd.
+
+  Definition m_enode (nd : mnode) : enode :=
+    mkEN (mn_self nd) (ms_es (mn_ms nd)) (mn_main nd) (mn_store nd) (mn_saved nd).
+  Definition m_cluster (nd : mnode) : list Z := sn_cluster (es_sn (ms_es (mn_ms nd))).
+
+  Definition mobs_flat (code : Z) (nd : mnode) : list Z :=
+    flat_obs code (proj (m_enode nd)) ++ Z.of_nat (length (m_cluster nd)) :: m_cluster nd ++ [ms_mem (mn_ms nd)].
+  Definition mobs_hash (code : Z) (nd : mnode) : Z := hash_list (mobs_flat code nd).
+
+  Fixpoint mscenario_check (nd : mnode) (ops : list eop) (i : nat) : option nat :=
+    match ops with
+    | [] => None
+    | EOpD b h :: tl =>
+        let '(nd', oc) := mdeliver nd b in
+        if mobs_hash (outcome_code oc) nd' =? h then mscenario_check nd' tl (S i) else Some i
+    | EOpR h :: tl =>
+        let nd' := mrestart nd in
+        if mobs_hash 8 nd' =? h then mscenario_check nd' tl (S i) else Some i
+    | EOpS h :: tl =>
+        if mobs_hash 8 (mrestart nd) =? h then mscenario_check nd tl (S i) else Some i
+    end.
+  Fixpoint mscenario_obs_at (nd : mnode) (ops : list eop) (i : nat) : list Z :=
+    match ops with
+    | [] => []
+    | o :: tl =>
+        let '(nd', code, keep) :=
+          match o with
+          | EOpD b _ => let '(nd', oc) := mdeliver nd b in (nd', outcome_code oc, nd')
+          | EOpR _ => (mrestart nd, 8, mrestart nd)
+          | EOpS _ => (mrestart nd, 8, nd)
+          end in
+        match i with O => mobs_flat code nd' | S j => mscenario_obs_at keep tl j end
+    end.
+End ElectionMem.
+
 (** scenario: genesis list, self, states (sid -> ranking, BPCOUNT), block id -> sid, ops *)
 Fixpoint zassoc {A} (l : list (Z * A)) (k : Z) (d : A) : A :=
   match l with [] => d | (h, v) :: tl => if h =? k then v else zassoc tl k d end.
@@ -200,8 +315,8 @@ Definition esto (states : list (Z * (list Z * Z))) (bs : list (Z * Z)) (id : Z) 
   zassoc states (zassoc bs id 0) ([], 0).
 Definition escenario_first_diff (c : ecase) : Z :=
   let '(gen, self, states, bs, ops) := c in
-  match escenario_check (esto states bs) gen (einit_node gen self) ops 0 with
+  match mscenario_check (esto states bs) gen (minit_node (esto states bs) gen self) ops 0 with
   | None => -1 | Some i => Z.of_nat i end.
 Definition escenario_debug (c : ecase) (i : nat) : list Z :=
   let '(gen, self, states, bs, ops) := c in
-  escenario_obs_at (esto states bs) gen (einit_node gen self) ops i.
+  mscenario_obs_at (esto states bs) gen (minit_node (esto states bs) gen self) ops i.
